@@ -24,6 +24,7 @@ func runC38(c *Ctx) {
 	c.Rule("conserving-reaggregation", "count←Σcount, sum←Σsum, min←min, max←max", 4)
 	c.Rule("generic-aggregate-reads-what-it-writes", "same aggregate read and written; only missing aggregates skipped", 2)
 	c.Rule("every-sample-aggregated-once", "downsampleBatch adds each sample once and emits before reset", 1)
+	c.Rule("every-input-chunk-consumed", "the aggregate loop runs until no input chunk is left", 1)
 	p := c.Load("pkg/compact/downsample")
 	if p == nil {
 		return
@@ -126,6 +127,50 @@ func runC38(c *Ctx) {
 		})
 		c.Check(okSkip, "generic-aggregate-reads-what-it-writes", rel+".genericAggregate#inputs", p.Pos(fn.Decl.Pos()), "input-chunk-skipped",
 			"an input chunk may be skipped only when it does not carry the aggregate; every other chunk's samples must be expanded into the batch")
+	}
+	// every input chunk is handed to the aggregation: the loop runs until no input chunk is left
+	if fn := p.Func(rel, "", "downsampleAggrLoop"); fn == nil {
+		c.Incomplete("every-input-chunk-consumed", rel+".downsampleAggrLoop", "", "function not found")
+	} else {
+		bad := "no loop that consumes the input chunks was found"
+		ast.Inspect(fn.Body(), func(nd ast.Node) bool {
+			f, ok := nd.(*ast.ForStmt)
+			if !ok {
+				return true
+			}
+			b := shapeBind{}
+			if f.Cond == nil || f.Init != nil || f.Post != nil || !matchShape("len(§chks)>0", stmtText(p, f.Cond), b) {
+				bad = "the loop over the input chunks does not run `for len(chunks) > 0`: chunks left over when it stops (e.g. a remainder of a division into equally sized parts) are silently dropped, and with them their counts and sums"
+				return true
+			}
+			var take, cut, use bool
+			for _, st := range f.Body.List {
+				t := stmtText(p, st)
+				switch {
+				case matchShape("§part:=§chks[:§j]", t, b):
+					take = true
+				case matchShape("§chks=§chks[§j:]", t, b):
+					cut = true
+				}
+			}
+			if take {
+				for _, st := range f.Body.List {
+					if containsShape("(§part,", stmtText(p, st), b) {
+						use = true
+					}
+				}
+			}
+			switch {
+			case !take || !cut:
+				bad = "the loop does not take the next part as chunks[:j] and continue with chunks[j:]"
+			case !use:
+				bad = "the part taken from the input is not handed to the aggregation"
+			default:
+				bad = ""
+			}
+			return true
+		})
+		c.Check(bad == "", "every-input-chunk-consumed", rel+".downsampleAggrLoop", p.Pos(fn.Decl.Pos()), "input-chunks-left-over", bad)
 	}
 	if fn := p.Func(rel, "", "downsampleBatch"); fn == nil {
 		c.Incomplete("every-sample-aggregated-once", rel+".downsampleBatch", "", "function not found")
